@@ -39,10 +39,19 @@ func Equal(a, b any) bool { //nolint: gocyclo
 		if rb.Kind() == reflect.Ptr && (ra.IsNil() || rb.IsNil()) {
 			return ra.IsNil() == rb.IsNil()
 		}
-		return a == b
+		return sameOrDeepEqual(a, b)
 	default:
+		return sameOrDeepEqual(a, b)
+	}
+}
+
+// sameOrDeepEqual compares with == when that cannot panic, else structurally.
+// (== on two interfaces holding the same uncomparable type, e.g. two maps, panics.)
+func sameOrDeepEqual(a, b any) bool {
+	if reflect.ValueOf(a).Comparable() && reflect.ValueOf(b).Comparable() {
 		return a == b
 	}
+	return reflect.DeepEqual(a, b)
 }
 
 // Less returns a bool indicating whether a < b.
